@@ -18,8 +18,8 @@ import time
 from dst.core import env, findings, prng, shrink
 
 ROOT = os.path.dirname(os.path.dirname(os.path.dirname(os.path.abspath(__file__))))
-OUT = os.path.join(ROOT, "out")
-EVIDENCE = os.path.join(ROOT, "evidence")
+OUT = os.environ.get("VERIF_OUT_DIR") or os.path.join(ROOT, "out")
+EVIDENCE = os.environ.get("VERIF_EVIDENCE_DIR") or os.path.join(ROOT, "evidence")
 MAX_SIGS_MINIMISED = 6
 WORKER_WATCHDOG_S = 600
 
